@@ -24,6 +24,7 @@ func c02Gen(r *rand.Rand, i int) *genReq {
 			if ok {
 				g := validBase(method, r)
 				cst.apply(g.M)
+				g.invalid = true
 				return g
 			}
 		}
@@ -58,6 +59,7 @@ func c02Gen(r *rand.Rand, i int) *genReq {
 	}
 	if r.Intn(10) == 0 {
 		// some requests that are rejected: the verdict has to be repeatable too
+		g.invalid = true
 		switch r.Intn(3) {
 		case 0:
 			g.M["preferenceFunction"] = "noSuchMethod"
